@@ -10,8 +10,9 @@ clause -> oracle -> domain
              callback are exactly pictures(S1) ++ .. ++ pictures(Sk) (sample values, in order)
   verdict    a non-conformant sequence X at position i: the concatenation is rejected, and the pictures output before the
              rejection are exactly those of the conformant sequences before X followed by those X outputs alone
-  frame      decoding changes no module-level table: a deep snapshot of every dict / list / set held in a module attribute of
-             vc2_data_tables and vc2_conformance.* (except the decoder state handed in) is equal before and after every decode
+  frame      decoding changes no module-level table: a snapshot of every dict / list / set held in an attribute of vc2_data_tables
+             or in an UPPER_CASE attribute of a vc2_conformance module (constants by convention; lower-case attributes may be
+             legitimate caches) is equal before and after all decodes of the check
   domain     sequences from small encoder configurations (HQ lossless / HQ lossy / LD lossy, symmetric and asymmetric transforms,
              default and custom quantisation matrices, pictures and fragments, 1-3 pictures, noise content so that the
              quantisation matrix matters), plus 'mixed' sequences spliced at description level from two configurations of the same
@@ -95,6 +96,8 @@ def _snapshot():
         for attr, val in list(vars(mod).items()):
             if attr.startswith("__") or not isinstance(val, (dict, list, set)):
                 continue
+            if not mname.startswith("vc2_data_tables") and attr != attr.upper():
+                continue  # only tables named as constants: a lower-case module attribute may be a legitimate cache (memoisation changes no result)
             try:
                 snap[(mname, attr)] = repr(val) if len(repr(val)) < 2000000 else None
             except Exception:
@@ -196,7 +199,7 @@ def check(rep, tier, seed):
                     "accepted sequences (%s): accepted, output == concatenation of the outputs alone" % (len(good), "; ".join(sorted(set(g[0].split(" wavelet")[0] for g in good)))),
                     n_concat, False, distinct=n_concat)
     rep.add_bounded("C10.verdict", "a truncated or prefix-corrupted sequence at a seeded position among 2-3 sequences: rejected there, earlier pictures unchanged", n_bad, False, distinct=n_bad)
-    rep.add_eval_fact("module-level dict/list/set attributes of vc2_data_tables and vc2_conformance.* are unchanged by all decodes of this check", not changed,
+    rep.add_eval_fact("the dict/list/set tables of vc2_data_tables and the UPPER_CASE dict/list/set attributes of vc2_conformance.* are unchanged by all decodes of this check", not changed,
                       "%d attributes compared" % len([k for k in before if before[k] is not None]))
 
 
